@@ -99,7 +99,16 @@ pub fn thick_oracle(ctx: &mut Ctx, s: Point, e: Point, w: u32, px: &[Point]) {
             cmax = cmax.max(cross);
         }
     }
-    ctx.expect(band_ok, "C17:thick-band", || format!("{:?}->{:?} w={} pixel farther than w/2+2.5 from the line", s, e, w));
+    ctx.expect(band_ok, "C17:thick-band", || {
+        let l = (l2 as f64).sqrt();
+        let (mut lo, mut hi) = (0f64, 0f64);
+        for p in px {
+            let c = (dx * (p.y - s.y) as i128 - dy * (p.x - s.x) as i128) as f64 / l;
+            lo = lo.min(c);
+            hi = hi.max(c);
+        }
+        format!("{:?}->{:?} w={} pixel farther than w/2+2.5 = {} from the line: signed distances span [{:.2}, {:.2}]", s, e, w, w as f64 / 2.0 + 2.5, lo, hi)
+    });
     ctx.expect(ends_ok, "C17:thick-ends", || format!("{:?}->{:?} w={} pixel more than 1 px beyond an end", s, e, w));
     let ext = if nmid > 0 { cmax - cmin } else { -1 };
     let mid_ok = nmid > 0 && (w < 3 || ext * ext >= (wi - 2) * (wi - 2) * l2);
